@@ -36,13 +36,14 @@ class RenderM(Render):
             items = [items[j] for j in perm]
         build = "wire.Build(%s)" % ", ".join(items)
         zero = [self.zero(out, 0)] + (["nil"] if p["cleanup"] else []) + (["nil"] if p["err"] else [])
-        body = "\tpanic(%s)" % build if p["style"] == "panic" else "\t%s\n\treturn %s" % (build, ", ".join(zero))
+        body = "\tpanic(%s)" % build if (p["style"] == "panic" or "nil" in pn) else "\t%s\n\treturn %s" % (build, ", ".join(zero))
         return "func %s(%s) %s {\n%s\n}\n" % (name, params, rs, body)
 
     def driver_src(self, tagdir, injectors):
         p = self.p
-        imp_lib = 'xlib "%s"' % self.libpath
-        D = ["package app\n", "import (\n\t%s\n\t\"%s/rt\"\n)\n" % (imp_lib, self.mod), "var _ %s\n" % (self.liblocal + "." + self.tn(min(self.types)))]
+        self.app_files()
+        imp_lib = self._imp_lib
+        D = ["package app\n", "import (\n\t%s\n\t\"%s/rt\"\n)\n" % (imp_lib, self.mod), self._blank]
         fails = [""] + ["P%d" % pr["id"] for pr in sorted(self.provs.values(), key=lambda x: x["id"]) if pr["err"] and not pr["struct"]]
         args = ", ".join(self.mkval(t, '"arg%d"' % i, 0) for i, t in enumerate(p["given"]))
         D.append("func Run() {\n\tfor _, f := range []string{%s} {" % ", ".join('"%s"' % f for f in fails))
@@ -64,18 +65,15 @@ class RenderM(Render):
     def pkg(self, d, filesplit):
         """filesplit: list of (filename, [(injname, out, perm)], extra decl text)"""
         base = self.app_files()
-        imp_lib = 'xlib "%s"' % self.libpath
+        imp_lib = self._imp_lib
         out = {"%s/%s/prov.go" % (self.cdir, d): base["app/prov.go"]}
         injs = []
         for fname, lst, extra in filesplit:
-            W = ["//go:build wireinject\n// +build wireinject\n", "package app\n",
-                 "import (\n\t%s\n\t\"%s\"\n)\n" % (imp_lib, WIRE_IMPORT),
-                 "var _ %s\n" % (self.liblocal + "." + self.tn(min(self.types)))]
-            if extra:
-                W.append(extra)
+            body = ([extra] if extra else [])
             for name, o, perm in lst:
-                W.append(self.injector_src(name, o, perm))
+                body.append(self.injector_src(name, o, perm))
                 injs.append((name, o))
+            W = ["//go:build wireinject\n// +build wireinject\n", "package app\n", self.inj_imports("\n".join(body))] + body
             out["%s/%s/%s" % (self.cdir, d, fname)] = "\n".join(W)
         out["%s/%s/drv.go" % (self.cdir, d)] = self.driver_src(d, injs)
         return out
@@ -112,6 +110,7 @@ def eng_multi(pid, tier, wd, known, replay=None):
         rp["kinds"] = {int(k): v for k, v in (rp.get("kinds") or {}).items()}
         rp["extra_fields"] = {int(k): v for k, v in (rp.get("extra_fields") or {}).items()}
         rp["extra_impl"] = {int(k): v for k, v in (rp.get("extra_impl") or {}).items()}
+        rp["type_pkg"] = {int(k): v for k, v in (rp.get("type_pkg") or {}).items()}
         progs, rseed = [rp], replay["input"].get("render_seed", 0)
     else:
         want_n = 90 if tier == "quick" else 900
